@@ -39,6 +39,9 @@ def latex_error(err, pos, latex, parms):
     out = [defs.TextToken(pos, mark[:mx], pos_fix=True)]
     if mx < len(mark):
         out.append(defs.TextToken(pos + mx -1, mark[mx:], pos_fix=True))
+    for t in out:
+        # see MathParser.expand_display_math()
+        t.is_error_mark = True
     return out
 
 def fatal(err):
